@@ -106,6 +106,11 @@ class C13(Spec):
                     break
         return out
 
+    def model_ref_disagree(self, case, sonic, model):
+        # the transcribed vector UTF-8 validator said "valid" where the proved scalar specification says ill-formed:
+        # the model (hypothesis VecSound of Props/C13 utf8_width_irrelevant_partial) is wrong, no verdict
+        return any((m or {}).get("vecsound") == "0" for m in model.values())
+
     def model_line(self, case, sonic):
         if case[0] not in ("place", "plain"):
             return None
